@@ -327,7 +327,41 @@ func (e *Engine) evalCall(st *State, call *ast.CallExpr) Value {
 		if sig == nil {
 			e.fail(call, "call of unknown function value")
 		}
-		e.evalArgs(st, call, sig)
+		cbArgs := e.evalArgs(st, call, sig)
+		if id, ok := funX.(*ast.Ident); ok && e.fc != nil && e.fc.cbObserves[id.Name] != "" {
+			gname := "gh_" + sanitize(e.fc.cbObserves[id.Name])
+			var argTs []T
+			for i, a := range call.Args {
+				if i < len(cbArgs) {
+					if sv, isSlice := cbArgs[i].(SliceV); isSlice && isByteLike(under(e.typeOf(a)).(*types.Slice).Elem()) {
+						argTs = append(argTs, e.strOf(st, Sel(st.Mem, sv.blk), sv.off, sv.ln))
+						continue
+					}
+					argTs = append(argTs, e.ghostCells(st, cbArgs[i], e.typeOf(a))...)
+				}
+			}
+			rsort, rs := "Int", SInt
+			if sig.Results().Len() > 0 {
+				if b, ok := under(sig.Results().At(0).Type()).(*types.Basic); ok && b.Info()&types.IsBoolean != 0 {
+					rsort, rs = "Bool", SBool
+				}
+			}
+			e.declareUF(gname, fmt.Sprintf("(declare-fun %s (%s) %s)", gname, strings.TrimSpace(strings.Repeat("Int ", len(argTs))), rsort))
+			e.noteAssumption("callback " + id.Name + ": side-effect free, first result = ghost observer " + e.fc.cbObserves[id.Name] + " of its arguments (assumed of the function values passed by callers)")
+			r := e.havocCall(st, "function value "+e.slug(call.Fun), sig, call, false)
+			obs := app(rs, gname, argTs...)
+			first := r
+			if tv, ok := r.(TupleV); ok && len(tv) > 0 {
+				first = tv[0]
+			}
+			switch x := first.(type) {
+			case BoolV:
+				e.assume(st, Eq(B2I(x.t), B2I(obs)), "callback result is the ghost observer of its arguments")
+			case IntV:
+				e.assume(st, Eq(x.t, obs), "callback result is the ghost observer of its arguments")
+			}
+			return r
+		}
 		// callback parameter with a `preserves` assumption
 		var keep []*Clause
 		if id, ok := funX.(*ast.Ident); ok && e.fc != nil {
@@ -421,7 +455,16 @@ func (e *Engine) dispatch(st *State, fn *types.Func, args []Value, call *ast.Cal
 			}
 		}
 	}
-	if fc := e.prog.contracts[full]; fc != nil && !fc.inline {
+	ignored := false
+	if e.fc != nil {
+		for _, x := range e.fc.ignore {
+			if full == x || strings.HasSuffix(full, "/"+x) || strings.HasSuffix(full, "."+x) || strings.HasSuffix(full, ")."+x) {
+				ignored = true
+				e.noteAssumption("contract not used at this call (ignore clause): " + full)
+			}
+		}
+	}
+	if fc := e.prog.contracts[full]; fc != nil && !fc.inline && !ignored {
 		return e.callContract(st, fc, args, call)
 	}
 	if fi := e.prog.funcs[full]; fi != nil && fi.decl.Body != nil {
@@ -507,9 +550,9 @@ func (e *Engine) inlineFunc(st *State, fi *FuncInfo, args []Value, call *ast.Cal
 				v, _ := e.lookupVar(out, r)
 				vals = append(vals, e.deLoc(out, v, r.Type()))
 			}
-			cx.returns = append(cx.returns, &retState{st: out, vals: vals})
+			cx.returns = append(cx.returns, &retState{st: out, vals: vals, nd: -1})
 		} else {
-			cx.returns = append(cx.returns, &retState{st: out})
+			cx.returns = append(cx.returns, &retState{st: out, nd: -1})
 		}
 	}
 	return e.joinReturns(st, cx, len(results), call)
@@ -538,7 +581,11 @@ func (e *Engine) joinReturns(st *State, cx *Ctx, nres int, call ast.Node) Value 
 	}
 	// run defers on each return state
 	for _, r := range cx.returns {
-		for i := len(cx.defers) - 1; i >= 0; i-- {
+		nd := len(cx.defers)
+		if r.nd >= 0 && r.nd < nd {
+			nd = r.nd
+		}
+		for i := nd - 1; i >= 0; i-- {
 			e.execStmt(r.st, cx.defers[i], &Ctx{results: cx.results})
 		}
 	}
@@ -608,7 +655,7 @@ func (e *Engine) inlineLit(st *State, lit *ast.FuncLit, args []Value, call ast.N
 			v, _ := e.lookupVar(out, r)
 			vals = append(vals, e.deLoc(out, v, r.Type()))
 		}
-		cx.returns = append(cx.returns, &retState{st: out, vals: vals})
+		cx.returns = append(cx.returns, &retState{st: out, vals: vals, nd: -1})
 	}
 	return e.joinReturns(st, cx, len(results), call)
 }
@@ -1014,6 +1061,9 @@ func (e *Engine) callContract(st *State, fc *FuncContract, args []Value, call *a
 	e.oldState = pre
 	for _, ens := range fc.ensures {
 		g := e.evalClause(st, ens, env)
+		if e.prog.knownPostFinding(fc.key, ens.text) {
+			e.noteAssumption("assumed at a call although listed as a known finding of the callee: " + shortName(fc.key) + " ensures " + normalizeSlug(ens.text))
+		}
 		e.assume(st, g, "ensures of "+shortName(fc.key))
 	}
 	if len(vals) == 1 {
